@@ -56,7 +56,7 @@ var handlerWriter = map[string]string{
 func runC01(c *core.Ctx) {
 	defer func() {
 		c.Share(map[string]string{"R4.11": "R1.15", "R4.12": "R1.16"}, runC04) // flags come back as last written
-		c.Share(map[string]string{"R16.4": "R1.17"}, runC16) // a set acknowledged with a chunk count the reader does not find is a miss where the map says hit
+		c.Share(map[string]string{"R16.4": "R1.17"}, runC16)                   // a set acknowledged with a chunk count the reader does not find is a miss where the map says hit
 		// necessary conditions shared with other properties (same obligations, this property's numbering)
 		c.Share(map[string]string{"R9.3": "R1.12"}, runC09) // a touch/set whose TTL lands in the wrong field changes when the map answers hit or miss
 		c.Share(map[string]string{"R8.5": "R1.13"}, runC08) // a reply left in the buffer is a reply the client does not receive
